@@ -186,6 +186,14 @@ def setup_for(mode):
                 queued = smt.Gt(smt.SeqLen(I2.ghost['queued_prs'].t), smt.IntC(0))
                 return smt.Not(smt.And(use_queue, plain_dev, older, queued))
             I.ghost['queue_guard'] = queue_guard
+        if mode in ('delete_queues', 'rebuild_queues'):
+            # the q/ branches on the remote are Bert-E's own, well-formed queue branches (C18)
+            rn = I.ghost['remote_names'].t
+            i = smt.fresh_bound('i', smt.INT)
+            I.assume(smt.ForAll([i], smt.Implies(
+                smt.And(smt.Le(smt.IntC(0), i), smt.Lt(i, smt.SeqLen(rn)),
+                        smt.StrPrefixOf(smt.StrC('q/'), smt.SeqNth(rn, i))),
+                smt.App('gwf.recognized', [smt.SeqNth(rn, i)], smt.BOOL))))
     return setup
 
 
@@ -209,6 +217,12 @@ def ens_delete_queues_success(job, out, G):
     # success: either there was no queue branch, or the deletions were published by one pruning push
     return implies(out.raised(X.JobSuccess),
                    not mutated(G.trace) or G.trace[-1] == ('push_all', True))
+
+
+def ens_queue_jobs_never_abort_on_well_formed_queues(job, out, G):
+    # with well-formed q/ names on the remote the job does its work: it never gives up on a branch name it
+    # computed itself (stabilization and hotfix queues, q/x.y.z and q/x.y.z.n, included)
+    return not out.raised(X.UnrecognizedBranchPattern)
 
 
 def ens_rebuild_reads_queue_first(job, out, G):
@@ -286,10 +300,14 @@ def contracts(env):
     cs = [
         Contract('bert_e.jobs.delete_queues:delete_queues', args=a, setup=wrap(setup_for('delete_queues')),
                  ensures=common + [('needs_queues_enabled', ens_queue_jobs_need_queues),
-                                   ('deletions_published_by_one_pruning_push', ens_delete_queues_success)],
+                                   ('deletions_published_by_one_pruning_push', ens_delete_queues_success),
+                                   ('never_aborts_on_well_formed_queue_names',
+                                    ens_queue_jobs_never_abort_on_well_formed_queues)],
                  covers=['raise:NotMyJob', 'raise:JobSuccess']),
         Contract('bert_e.jobs.rebuild_queues:rebuild_queues', args=a, setup=wrap(setup_for('rebuild_queues')),
-                 ensures=common + [('needs_queues_enabled', ens_queue_jobs_need_queues)],
+                 ensures=common + [('needs_queues_enabled', ens_queue_jobs_need_queues),
+                                   ('never_aborts_on_well_formed_queue_names',
+                                    ens_queue_jobs_never_abort_on_well_formed_queues)],
                  covers=['raise:NotMyJob', 'raise:JobSuccess']),
         Contract('bert_e.jobs.force_merge_queues:force_merge_queues', args=a,
                  setup=wrap(setup_for('force_merge')),
